@@ -158,37 +158,54 @@ theorem pipeline_split_nested (pre post : Steps δ ρ) (hpost : post ≠ []) (n 
   rw [this, runAll_append (pre ++ q.steps.take j)]
   cases runAll (pre ++ q.steps.take j) dm <;> rfl
 
-/-! ## `unique_names` / `mkpipe` -/
+/-! ## `unique_names` / `mkpipe`
+
+`uniqueNames` is the code as it is now (after `fix: unique_names keeps suffixing until the generated name is
+free`); `uniqueNames_v0` is the loop before the fix, kept with the witness that it breaks the property. -/
 
 /-- one name per element -/
 theorem uniqueNames_length (names : List String) : (uniqueNames names).length = names.length :=
   uniqueNamesG_length sfxStr names
 
-/-- the loop computes the closed form: a name occurring once is kept, the `k`-th occurrence of a repeated
-name `n` becomes `n_k` -/
-theorem uniqueNames_eq_closed_form (names : List String) : uniqueNames names = uniqueNamesSpec names :=
-  uniqueNamesG_eq_spec sfxStr names
+/-- the generated names are pairwise different, for EVERY list of names (no hypothesis: a generated name that
+is already taken is suffixed again until it is free) -/
+theorem uniqueNames_nodup (names : List String) : (uniqueNames names).Nodup :=
+  uniqueNamesG_nodup sfxStr String.length sfxStr_length names
 
-/-- the hypothesis of uniqueness: no name occurring exactly once equals a generated name `n_1 … n_count(n)`
-of a repeated name `n` (decidable) -/
+/-- no clash (decidable): no name occurring exactly once equals a generated name `n_1 … n_count(n)` of a
+repeated name `n` -/
 abbrev NoSuffixClash (names : List String) : Prop := Skc.Pipeline.NoSuffixClash sfxStr names
 
-/-- under `NoSuffixClash` the generated names are pairwise different -/
-theorem uniqueNames_nodup (names : List String) (h : NoSuffixClash names) : (uniqueNames names).Nodup :=
-  uniqueNamesG_nodup sfxStr sfxStr_inj names h
+/-- without a clash the loop computes the closed form: a name occurring once is kept, the `k`-th occurrence of a
+repeated name `n` becomes `n_k` (so the fix changed no name that was not colliding) -/
+theorem uniqueNames_eq_closed_form (names : List String) (h : NoSuffixClash names) :
+    uniqueNames names = uniqueNamesSpec names := by
+  unfold uniqueNames uniqueNamesSpec
+  rw [uniqueNamesG_eq_v0 sfxStr sfxStr_inj names h]
+  exact uniqueNamesG_v0_eq_spec sfxStr names
 
-/-- the hypothesis is necessary (K4): a user class whose lower-cased name is `foo_1` next to two `foo` -/
+/-- before the fix: the loop always computed the closed form … -/
+theorem uniqueNames_v0_eq_closed_form (names : List String) : uniqueNames_v0 names = uniqueNamesSpec names :=
+  uniqueNamesG_v0_eq_spec sfxStr names
+
+/-- … whose names are pairwise different only under `NoSuffixClash` … -/
+theorem uniqueNames_v0_nodup (names : List String) (h : NoSuffixClash names) : (uniqueNames_v0 names).Nodup :=
+  uniqueNamesG_v0_nodup sfxStr sfxStr_inj names h
+
+/-- … and the hypothesis was necessary (K4, now F14): a user class whose lower-cased name is `foo_1` next to two
+`foo` steps got a duplicated step name; the present loop does not -/
 theorem uniqueNames_clash_witness :
-    uniqueNames ["foo", "foo", "foo_1"] = ["foo_1", "foo_2", "foo_1"] ∧
-      ¬ NoSuffixClash ["foo", "foo", "foo_1"] ∧ ¬ (uniqueNames ["foo", "foo", "foo_1"]).Nodup := by
+    uniqueNames_v0 ["foo", "foo", "foo_1"] = ["foo_1", "foo_2", "foo_1"] ∧
+      ¬ NoSuffixClash ["foo", "foo", "foo_1"] ∧ ¬ (uniqueNames_v0 ["foo", "foo", "foo_1"]).Nodup ∧
+      uniqueNames ["foo", "foo", "foo_1"] = ["foo_1_1", "foo_2", "foo_1"] := by
   decide
 
 /-- … in general: whenever a once-occurring name equals the name generated for an occurrence of a repeated
-name, two generated names coincide -/
-theorem uniqueNames_clash_necessary (names : List String) (i j : Nat) (hi : i < names.length) (hj : j < names.length)
+name, the old loop produced two equal names -/
+theorem uniqueNames_v0_clash_necessary (names : List String) (i j : Nat) (hi : i < names.length) (hj : j < names.length)
     (hi1 : 1 < names.count names[i]) (hj1 : names.count names[j] = 1)
-    (hc : sfxStr names[i] (occ names i hi) = names[j]) : ¬ (uniqueNames names).Nodup :=
-  uniqueNamesG_not_nodup sfxStr names i j hi hj hi1 hj1 hc
+    (hc : sfxStr names[i] (occ names i hi) = names[j]) : ¬ (uniqueNames_v0 names).Nodup :=
+  uniqueNamesG_v0_not_nodup sfxStr names i j hi hj hi1 hj1 hc
 
 /-- names without the character `_` never clash … -/
 theorem noSuffixClash_of_no_underscore (names : List String) (h : ∀ n ∈ names, '_' ∉ n.toList) :
@@ -199,7 +216,7 @@ theorem noSuffixClash_of_no_underscore (names : List String) (h : ∀ n ∈ name
   omega
 
 /-- … in particular the names `mkpipe` gives to the built-in classes (lower-cased class names of the table
-generated from the code) -/
+generated from the code): they get exactly the closed-form names `n_1, n_2, …` -/
 theorem builtin_names_noSuffixClash (names : List String)
     (h : ∀ n ∈ names, n ∈ Skc.Generated.classes.map (·.lname)) : NoSuffixClash names := by
   apply noSuffixClash_of_no_underscore
@@ -210,10 +227,10 @@ theorem builtin_names_noSuffixClash (names : List String)
 
 /-- each generated name resolves, in `named_steps` (a `dict`), to the step it was generated for -/
 theorem uniqueNames_lookup {β : Type} (names : List String) (elements : List β) (hl : names.length = elements.length)
-    (h : NoSuffixClash names) (i : Nat) (hi : i < names.length) :
+    (i : Nat) (hi : i < names.length) :
     dictGet ((uniqueNames names).zip elements) ((uniqueNames names)[i]'(by rw [uniqueNames_length]; exact hi)) =
       some (elements[i]'(hl ▸ hi)) :=
-  dictGet_zip (uniqueNames names) elements (uniqueNames_nodup names h) (by rw [uniqueNames_length]; exact hl) i
+  dictGet_zip (uniqueNames names) elements (uniqueNames_nodup names) (by rw [uniqueNames_length]; exact hl) i
     (by rw [uniqueNames_length]; exact hi)
 
 /-- `mkpipe(*steps)`: the pipeline's steps are the given steps, in order, named by `unique_names` of the
@@ -330,12 +347,12 @@ example : ((Pipe.mk [tr "a", tr "b", dmk "z"]).getSlice (some (-1)) none none).t
 example : uniqueNames ["sumscaler", "invertminimize", "sumscaler", "topsis", "sumscaler"] =
     ["sumscaler_1", "invertminimize", "sumscaler_2", "topsis", "sumscaler_3"] := by decide
 example : NoSuffixClash ["sumscaler", "invertminimize", "sumscaler", "topsis", "sumscaler"] := by decide
--- a repeated name next to a repeated suffixed name does not clash (`a_1` is itself renamed)
-example : NoSuffixClash ["a", "a", "a_1", "a_1"] ∧ uniqueNames ["a", "a", "a_1", "a_1"] = ["a_1", "a_2", "a_1_1", "a_1_2"] := by
+-- a repeated name next to a repeated suffixed name does not clash (`a_1` is itself renamed): the fix changes nothing
+example : NoSuffixClash ["a", "a", "a_1", "a_1"] ∧ uniqueNames ["a", "a", "a_1", "a_1"] = ["a_1", "a_2", "a_1_1", "a_1_2"] ∧
+    uniqueNames_v0 ["a", "a", "a_1", "a_1"] = uniqueNames ["a", "a", "a_1", "a_1"] := by
   decide
--- the candidate repair of K4 keeps suffixing until the name is free, and changes nothing else
-example : uniqueNamesFix ["foo", "foo", "foo_1"] = ["foo_1_1", "foo_2", "foo_1"] ∧
-    uniqueNamesFix ["a", "a", "a_1", "a_1"] = uniqueNames ["a", "a", "a_1", "a_1"] := by decide
+-- a name is suffixed again as often as needed
+example : uniqueNames ["a", "a", "a_1", "a_1_1", "c"] = ["a_1_1_1", "a_2", "a_1", "a_1_1", "c"] := by decide
 
 /-- ELECTRE1 with `q` dropped from `_skcriteria_parameters`: not well formed, and `copy()` forgets `q` -/
 def electre1Dropped : ClassSpec :=
